@@ -212,6 +212,27 @@ def updater(chk: Check, repo: Repo) -> None:
         ok_sh = ok_sh and not awaited_helpers
         detail = f"shielded: {args}; bus-idle wait awaited directly inside the semaphore: {len(joins) == 1}; awaited local helpers: {awaited_helpers}"
     chk.ob("only-the-read-is-shielded", f.site(), ok_sh, detail, key="updater|shield-scope")
+    # ... but a shielded read inside a cancellable tracker task has two consequences of its own (both known findings):
+    if rs is not None:
+        sh_in_sem = [c for n in c2.nodes if n.ast is not None and n.kind == "stmt" and "self._semaphore" in enclosing_with_items(n.withs) for c in calls(n.ast) if call_name(c) == "asyncio.shield"]
+        releases_itself = False  # would need the shielded coroutine to own the slot (acquire/release inside it)
+        for c in sh_in_sem:
+            inner = c.args[0] if c.args else None
+            if isinstance(inner, ast.Call) and isinstance(inner.func, ast.Name):
+                helper = next((g for g in repo.nested_functions(rs) if g.name == inner.func.id), None)
+                if helper is not None and any(call_name(x).endswith("_semaphore.release") for x in calls(helper.node)):
+                    releases_itself = True
+        ok1 = not sh_in_sem or releases_itself
+        chk.ob("slot-is-held-until-the-read-is-over", rs.site(sh_in_sem[0]) if sh_in_sem else rs.site(), ok1, "the semaphore slot is released by whoever finishes the read" if ok1 else "the read is `asyncio.shield`ed inside `async with self._semaphore` of the tracker task: when that task is cancelled while its read is outstanding (a telegram for an `expire` value, an unregistration, a disconnect) the `async with` exits and frees the slot although the shielded read still waits for its answer — a third (fourth ...) read starts: more than two reads in progress", key="updater|shielded-read-outlives-its-slot")
+        rechecks = False
+        for c in sh_in_sem:
+            inner = c.args[0] if c.args else None
+            if isinstance(inner, ast.Call) and isinstance(inner.func, ast.Name):
+                helper = next((g for g in repo.nested_functions(rs) if g.name == inner.func.id), None)
+                if helper is not None and any(isinstance(x, ast.If) for x in walk_local(helper.node)):
+                    rechecks = True
+        ok2 = not sh_in_sem or rechecks
+        chk.ob("no-read-after-the-tracker-was-stopped", rs.site(sh_in_sem[0]) if sh_in_sem else rs.site(), ok2, "the shielded read re-checks that its tracker is still the active one before it sends" if ok2 else "`asyncio.shield(<read>)` starts the read in a new task on a later loop pass and nothing re-checks the tracker then: a tracker stopped in between (disconnect, unregistration, state update at the expiry instant) still issues its read — a read while disconnected / for an unregistered value", key="updater|shielded-read-starts-after-stop")
     other_reads = [(g.qualname) for g in repo.all_functions() if g.module.name == M for c in calls(g.node) if method_name(c) == "read_state" and not g.qualname.endswith("read_state_mutex")]
     chk.ob("read-inside-semaphore", f.site(), not other_reads, f"other read_state call sites in the updater: {other_reads}", key="updater|other-reads")
     trk = [c for c in calls(f.node) if call_name(c) == "_StateTracker"]
@@ -221,6 +242,12 @@ def updater(chk: Check, repo: Repo) -> None:
     mf = cfgf.must_facts()
     tvars = {n.targets[0].id for n in walk_local(f.node) if isinstance(n, ast.Assign) and len(n.targets) == 1 and isinstance(n.targets[0], ast.Name) and isinstance(n.value, ast.Call) and call_name(n.value) == "_StateTracker"}
     st_ = [n for n in cfgf.nodes if n.kind == "stmt" and n.ast is not None and any(isinstance(c.func, ast.Attribute) and c.func.attr == "start" and isinstance(c.func.value, ast.Name) and c.func.value.id in tvars for c in calls(n.ast))]
+    # registering a value again stops the tracker of the earlier registration before it is replaced
+    stores = [n for n in cfgf.nodes if n.kind == "stmt" and isinstance(n.ast, ast.Assign) and isinstance(n.ast.targets[0], ast.Subscript) and ast.unparse(n.ast.targets[0].value) == "self._workers"]
+    stops = [n for n in cfgf.nodes if n.ast is not None and n.kind in ("stmt", "test") and any(isinstance(c.func, ast.Attribute) and c.func.attr == "stop" for c in calls(n.ast))]
+    pops = [n for n in cfgf.nodes if n.ast is not None and n.kind in ("stmt", "test") and any(call_name(c) in ("self._workers.pop", "self._workers.get") for c in calls(n.ast))]
+    ok_re = len(stores) == 1 and bool(stops) and bool(pops) and any(cfgf.dominates(p_.id, stores[0].id) for p_ in pops) and all(any(cfgf.dominates(p_.id, s_.id) for p_ in pops) for s_ in stops)
+    chk.ob("re-registration-stops-the-previous-tracker", f.site(), ok_re, "register_remote_value looks up an earlier tracker of the value and stops it before storing the new one" if ok_re else "register_remote_value overwrites the worker entry without stopping the tracker of an earlier registration: that tracker keeps reading unowned — after re-registration with another policy, after unregistration and while disconnected", key="updater|re-register")
     chk.ob("register-starts-only-when-running", f.site(), len(st_) == 1 and ("self.started", True) in mf[st_[0].id], "a tracker registered later is started only when the updater is running (connected)", key="updater|register-start")
     ini = S("__init__"); chk.unit(ini)
     sem = [n for n in walk_local(ini.node) if isinstance(n, ast.Assign) and ast.unparse(n.targets[0]) == "self._semaphore"]
